@@ -148,6 +148,8 @@ def flattenToReshapeRun (xShape : Option Shape) (axisAttr : Int) (outShape : Opt
   | none => finish xShape axis ns
 where
   finish (xShape : Option Shape) (axis : Int) (ns : List Int) : Outcome (List Int) :=
+    -- commit 02f546a (finding D6, fixed): a statically zero-size input dim refuses the rewrite
+    if ((xShape.map (fun s => s.any (· == .known 0))).getD false) then .nofire else
     let ns := match xShape with
       | some s =>
         -- Python slicing `s[:axis]`, `s[axis:]` (axis already normalised when the rank is known)
@@ -275,7 +277,7 @@ def specSliceLen01 (d : Nat) (en : Int) : Nat :=
 /-! ## ScatterND with static full-range indices -/
 
 /-- `ScatterAllStatic.check`; `indices` = constant value as nested lists (rank-2 int tensor). -/
-def staticScatterRun (dataShape updShape : Option Shape) (indices : Option (List (List Int))) : Outcome Unit :=
+def staticScatterRunPrefix (dataShape updShape : Option Shape) (indices : Option (List (List Int))) : Outcome Unit :=
   match dataShape, updShape with
   | some ds, some _ =>
     if !sameShape dataShape updShape then .nofire
@@ -288,6 +290,11 @@ def staticScatterRun (dataShape updShape : Option Shape) (indices : Option (List
           if idx == (List.range n).map (fun i => [Int.ofNat i]) then .fire () else .nofire
         | _ :: _ => .nofire                    -- `not isinstance(data.shape[0], int)` (guard added by fix F6 for D17)
   | _, _ => .nofire
+
+/-- `ScatterAllStatic.check` as it is now (commit 396bc06): a `reduction` attribute other than `"none"` refuses first;
+`staticScatterRunPrefix` is the pre-fix check (finding C05-N4, fixed). -/
+def staticScatterRun (reductionIsNone : Bool) (dataShape updShape : Option Shape) (indices : Option (List (List Int))) : Outcome Unit :=
+  if !reductionIsNone then .nofire else staticScatterRunPrefix dataShape updShape indices
 
 /-- ONNX `ScatterND` over the leading axis with `indices = [[i₀],[i₁],…]`, on lists of rows:
 `out = data; for k: out[i_k] = f out[i_k] updates[k]` (`f` = the reduction; `fun _ u => u` for `none`). -/
